@@ -408,7 +408,8 @@ Definition descendants (ix : index) (y : nat) : list nat :=
   match ix_enc ix with
   | ENested tin tout inv => slice inv (nth y tin 0) (nth y tout 0)
   | ENear tin tout inv exc =>
-      sort_dedup (near_desc_loop ((S (pn (ix_poset ix))) * (length exc + 2)) tin tout inv exc [y] [])
+      (* the code's `while let Some(cur) = frontier.pop()` has no bound; this fuel is proved sufficient *)
+      sort_dedup (near_desc_loop (2 * (S (pn (ix_poset ix))) * (length exc + 2)) tin tout inv exc [y] [])
   | EChain _ chains reach =>
       flat_map (fun e : nat * nat => skipn (snd e) (nth (fst e) chains [])) (nth y reach [])
   end.
